@@ -797,9 +797,35 @@ func (g *treeGen) eqLeaf() Node {
 	case 3:
 		return Node{"t": "ptr", "d": 1 + g.rng.Intn(2), "x": Node{"t": "leaf", "ty": "int", "v": []any{"5"}}}
 	case 4, 5:
-		return Node{"t": "sl", "arr": g.rng.Intn(3) == 0, "e": ints(1 + g.rng.Intn(4))}
+		sl := Node{"t": "sl", "arr": g.rng.Intn(3) == 0, "ety": "typed", "slack": []int{0, 0, 5}[g.rng.Intn(3)], "e": ints(1 + g.rng.Intn(4))}
+		switch g.rng.Intn(5) {
+		case 0: // []*int, perhaps with a nil pointer
+			sl["arr"], sl["ety"] = false, "ptr"
+			if e := sl["e"].([]any); g.rng.Intn(2) == 0 {
+				e[g.rng.Intn(len(e))] = Node{"t": "nil"}
+			}
+		case 1: // []any of mixed leaves
+			sl["arr"], sl["ety"] = false, "any"
+			e := sl["e"].([]any)
+			for i := range e {
+				switch g.rng.Intn(6) {
+				case 0:
+					e[i] = Node{"t": "nil"}
+				case 1:
+					e[i] = Node{"t": "ptr", "d": 1 + g.rng.Intn(2), "x": Node{"t": "leaf", "ty": "int", "v": []any{"5"}}}
+				case 2:
+					e[i] = Node{"t": "leaf", "ty": "str", "v": g.toks(1, 2, []string{"a", "b"})}
+				case 3:
+					e[i] = Node{"t": "sl", "arr": false, "ety": "typed", "slack": 0, "e": ints(1 + g.rng.Intn(2))}
+				case 4:
+					e[i] = Node{"t": "st", "a": []any{fmt.Sprint(1 + g.rng.Intn(8))}, "p": []any{"p"}, "c": []any{"c"}}
+				}
+			}
+		}
+		return sl
 	case 6:
-		return Node{"t": "sl", "arr": false, "e": []any{Node{"t": "sl", "arr": false, "e": ints(2)}, Node{"t": "sl", "arr": false, "e": ints(1 + g.rng.Intn(3))}}}
+		return Node{"t": "sl", "arr": false, "ety": "typed", "slack": 0, "e": []any{Node{"t": "sl", "arr": false, "ety": "typed", "slack": 0, "e": ints(2)},
+			Node{"t": "sl", "arr": false, "ety": "typed", "slack": []int{0, 5}[g.rng.Intn(2)], "e": ints(1 + g.rng.Intn(3))}}}
 	case 7:
 		return Node{"t": "mp", "ks": []any{[]any{"k"}, []any{"j"}}, "vs": []any{[]any{"1"}, []any{fmt.Sprint(2 + g.rng.Intn(7))}}}
 	case 8:
@@ -841,7 +867,7 @@ func (g *treeGen) eqStack(depth int) Node {
 			} else {
 				ex = g.eqStack(depth + 1)
 			}
-			kids = append(kids, Node{"t": "cnd", "form": g.form(), "kw": []any{"k"}, "op": []string{"Eq", "Ne", "Ge"}[g.rng.Intn(3)], "ex": ex,
+			kids = append(kids, Node{"t": "cnd", "form": g.form(), "kw": [][]any{{"k"}, {"K", "x"}, {"c"}}[g.rng.Intn(3)], "op": []string{"Eq", "Ne", "Ge", "like", "LIKE"}[g.rng.Intn(5)], "ex": ex,
 				"paren": false, "nspad": false, "enc": []any{}})
 		}
 	}
@@ -885,7 +911,33 @@ func (g *treeGen) mutate(n map[string]any) {
 		if len(e) == 0 {
 			return
 		}
-		g.mutate(e[g.rng.Intn(len(e))].(map[string]any))
+		allInts := true
+		for _, k := range e {
+			if m, _ := k.(map[string]any); m == nil || m["t"] != "leaf" || m["ty"] != "int" {
+				allInts = false
+			}
+		}
+		switch r := g.rng.Intn(6); {
+		case r == 0: // allocated differently: must NOT matter
+			if argIntDefault(n["slack"], 0) == 0 {
+				n["slack"] = 5
+			} else {
+				n["slack"] = 0
+			}
+		case r == 1 && allInts && !nBool(n, "arr"): // []int = []*int = []any: must NOT matter
+			n["ety"] = map[string]string{"typed": "ptr", "ptr": "any", "any": "typed", "": "ptr"}[nStr(n, "ety")]
+		case r == 2 && (n["ety"] == "ptr" || n["ety"] == "any"): // nil element <-> a value
+			i := g.rng.Intn(len(e))
+			if m, _ := e[i].(map[string]any); m != nil && m["t"] == "nil" {
+				e[i] = Node{"t": "leaf", "ty": "int", "v": []any{"7"}}
+			} else {
+				e[i] = Node{"t": "nil"}
+			}
+		default:
+			if m, _ := e[g.rng.Intn(len(e))].(map[string]any); m != nil && m["t"] != "nil" {
+				g.mutate(m)
+			}
+		}
 	case "mp":
 		vs := kids("vs")
 		if len(vs) > 0 {
@@ -917,7 +969,25 @@ func (g *treeGen) mutate(n map[string]any) {
 			n["p"] = bump(n["p"]) // unexported: must NOT matter
 		}
 	case "cnd":
-		switch g.rng.Intn(4) {
+		switch g.rng.Intn(6) {
+		case 4: // letter case alone: keywords and operator texts are case sensitive
+			t := anyToks(n["kw"])
+			for i := range t {
+				if strings.ToUpper(t[i]) != t[i] {
+					t[i] = strings.ToUpper(t[i])
+				} else {
+					t[i] = strings.ToLower(t[i])
+				}
+			}
+			n["kw"] = toksAny(t)
+		case 5:
+			if n["op"] == "like" {
+				n["op"] = "LIKE"
+			} else if n["op"] == "LIKE" {
+				n["op"] = "like"
+			} else {
+				n["kw"] = bump(n["kw"])
+			}
 		case 0:
 			n["kw"] = bump(n["kw"])
 		case 1:
